@@ -2030,12 +2030,12 @@ def add_wrappers(case, p_conv=0.6, p_more=0.45, p_dup=0.0, rich=False):
     return dict(case, ops=out, insts=insts)
 
 
-def gen_case(rng, quick=True, held=True, driver=None, n_ops=None, wrappers=False, wrap_args=None, rich=True):
+def gen_case(rng, quick=True, held=True, driver=None, n_ops=None, wrappers=False, wrap_args=None, rich=True, names=None):
     insts = []
     driver = driver or rng.choice(["h5", "ih5"])
     n = n_ops or rng.randrange(6, 22 if quick else 40)
     obs = []
-    sh = Shadow(names=NAMES[:rng.choice([2, 2, 3, 4])])  # few names: freed paths are taken again
+    sh = Shadow(names=(names or NAMES)[:rng.choice([2, 2, 3, 4])])  # few names: freed paths are taken again
     if quick:
         nq, nfinal = 4, (24 if driver == "h5" else 10)
     else:
@@ -2315,15 +2315,18 @@ def impl_for(pid, case):
     return r
 
 
-def cases_for(ctx, pid):
+def cases_for(ctx, pid, n=None):
     cases = core.load_corpus(pid)
-    n = N_CASES["quick" if ctx.quick else "thorough"]
+    n = n or N_CASES["quick" if ctx.quick else "thorough"]
     for _ in range(n):
         cases.append(gen_case(ctx.rng, quick=ctx.quick, held=True, wrappers=pid in WRAPPER_PROPS, wrap_args=WRAPPER_ARGS.get(pid)))
     return cases
 
 
-def run_prop(ctx, pid, mod, rule_extra=""):
+def run_prop(ctx, pid, mod, rule_extra="", n_cases=None, extra_cases=None):
+    """`extra_cases(ctx)`: further cases of the property (generated AFTER the shared ones, so the shared stream of `ctx.rng`
+    is the same with and without them). Cases marked `multi` (several containers, see ctr_multi.py) are outside the model:
+    they get no model lines and are judged by the oracle alone."""
     ctx.rule = ("cases: random container histories (create group/dataset, attach/delete metadata incl. refused requests: auxiliary, unknown, "
                 "duplicate, invalid, missing node - each in every call shape meta[name | (name, ver) | SchemaClass | PluginRef] = instance | dict | "
                 "JSON | bytes | instance of the key class, values also of descendant / other vt.* schemas, classes of releases that are not "
@@ -2356,8 +2359,13 @@ def run_prop(ctx, pid, mod, rule_extra=""):
                    not bad, "; ".join(bad[:10]))
     ctx.assumptions.append("node names are non-empty (HDF5; the driver's path parser refuses empty segments): side condition `OpOK` of "
                            "`sync_step` / `sync_run` (the model's structured names contain `Key.user \"\"`, for which `move` breaks the invariant)")
-    cases = cases_for(ctx, pid)
-    ctx.correspond("container-model", mod, cases, lines, "drv_ctr", compare=compare_parts(PARTS[pid]), timeout=240)
+    cases = cases_for(ctx, pid, n_cases)
+    if extra_cases:
+        cases = cases + list(extra_cases(ctx))
+    cmp = compare_parts(PARTS[pid])
+    ctx.correspond("container-model", mod, cases, lambda c: ["init"] if c.get("multi") else lines(c), "drv_ctr",
+                   compare=lambda c, ir, mo: None if c.get("multi") else cmp(c, ir, mo), timeout=240)
+    ctx.dist["cases:several-containers(oracle only)"] = sum(1 for c in cases if c.get("multi"))
     ctx.dist["cases:h5"] = sum(1 for c in cases if c["driver"] == "h5")
     ctx.dist["cases:ih5"] = sum(1 for c in cases if c["driver"] == "ih5")
     for c in cases:
